@@ -14,6 +14,7 @@ import (
 	"errors"
 	"sync"
 
+	"github.com/AliceO2Group/Control/common/event"
 	"github.com/AliceO2Group/Control/common/utils/uid"
 	"github.com/AliceO2Group/Control/configuration"
 	"github.com/AliceO2Group/Control/core/task"
@@ -156,4 +157,23 @@ func fenvNew(conf *fenvConf, rec *fenvRec, state string, hooks []fenvHook) *Envi
 	workflow.LinkChildrenToParents(env.workflow)
 	env.Sm.SetState(state)
 	return env
+}
+
+// fenvTaskman is a task manager whose only behaviour is to answer every task-transition message of the
+// environment's real transition bodies with the outcome chosen by `fails`.
+func fenvTaskman(rec *fenvRec, env *Environment, fails func(n int) bool) *task.Manager {
+	tm := &task.Manager{MessageChannel: make(chan *task.TaskmanMessage, 4)}
+	go func() {
+		n := 0
+		for range tm.MessageChannel {
+			rec.add("taskman:message")
+			var err error
+			if fails != nil && fails(n) {
+				err = errors.New("a critical task could not make the transition")
+			}
+			n++
+			env.stateChangedCh <- &event.TasksStateChangedEvent{EnvironmentId: env.Id(), TaskStateChangedErr: err}
+		}
+	}()
+	return tm
 }
